@@ -226,7 +226,12 @@ static void gc_trace_refs (hawk_gch_t* list)
 				iv = (hawk_val_t*)HAWK_MAP_VPTR(pair);
 				if (HAWK_VTR_IS_POINTER(iv) && iv->v_gc)
 				{
-					hawk_val_to_gch(iv)->gc_refs--;
+					/* a value in an older generation is not a member of this list.
+					 * it still carries GCH_MOVED from the collection it survived
+					 * and must be left alone. decrementing it would turn it into
+					 * GCH_UNREACHABLE and make free_mapval()/free_arrval() skip
+					 * the reference count decrement it is due. */
+					if (hawk_val_to_gch(iv)->gc_refs != GCH_MOVED) hawk_val_to_gch(iv)->gc_refs--;
 				}
 				pair = hawk_map_getnextpair(map, &itr);
 			}
@@ -247,7 +252,8 @@ static void gc_trace_refs (hawk_gch_t* list)
 					iv = (hawk_val_t*)HAWK_ARR_DPTR(arr, i);
 					if (HAWK_VTR_IS_POINTER(iv) && iv->v_gc)
 					{
-						hawk_val_to_gch(iv)->gc_refs--;
+						/* see the comment for a map element above */
+						if (hawk_val_to_gch(iv)->gc_refs != GCH_MOVED) hawk_val_to_gch(iv)->gc_refs--;
 					}
 				}
 			}
